@@ -194,11 +194,13 @@ def mentionsConnection (w : Want) : Bool :=
   (w.lines.any fun kv => canon kv.1 = connKey) || (w.conf.any fun kv => canon kv.1 = connKey)
 
 /-- verdict for a well-formed case. `match_` = the target kind (plain/TLS) fits the ssl option; `reuse` =
-`reuseExpected` of the case's options and timing. -/
-def judge (wants : List Want) (match_ : Bool) (ka : Bool) (inst : Nat) (o : Obs) (reuse : Bool := true) : String :=
+`reuseExpected` of the case's options and timing; `redirect` = the operator set `redirect: true` (requests that follow a
+redirect of the target to another host are then his own demand; what the TARGET receives is judged all the same). -/
+def judge (wants : List Want) (match_ : Bool) (ka : Bool) (inst : Nat) (o : Obs) (reuse : Bool := true)
+    (redirect : Bool := false) : String :=
   if !match_ then
     (if o.n = 0 then "ok" else "fail:scheme:request arrived although the scheme does not fit the target")
-  else if o.decoy ≠ 0 then "fail:target:a request reached a host that is not the gun's target (redirect followed)"
+  else if o.decoy ≠ 0 ∧ !redirect then "fail:target:a request reached a host that is not the gun's target (redirect followed)"
   else if !o.tunOk then "fail:target:the CONNECT tunnel does not name the gun's target"
   else if !o.runOk then "fail:run:provider failed on well-formed ammo"
   else if o.n = 0 ∧ wants ≠ [] then "fail:target:nothing arrived at the gun's target"
